@@ -7,10 +7,12 @@
 package main
 
 import (
+	"encoding/json"
 	"flag"
 	"fmt"
 	"io/fs"
 	"os"
+	"os/exec"
 	"path/filepath"
 	"sort"
 	"strconv"
@@ -129,6 +131,16 @@ func classOf(line string) string {
 func (s *sys) under(p, root string) bool {
 	if root == "" {
 		return false
+	}
+
+	// a volume root is spelled with its separator by Abs ("C:\\") and without
+	// it in dump paths ("C:"): compare without trailing separators.
+	if len(p) > 1 {
+		p = strings.TrimSuffix(p, s.sep)
+	}
+
+	if len(root) > 1 {
+		root = strings.TrimSuffix(root, s.sep)
 	}
 
 	if p == root {
@@ -825,13 +837,6 @@ func main() {
 			sn, probe.NumOps(), st.States, st.Transitions, st.DepthDone, st.Exhaustive)
 	}
 
-	// the ostype build is run by a second invocation from this process
-	if !ostBuild && os.Getenv("VERIF_BIN") != "" && *systems == "" {
-		if _, err := os.Stat(os.Getenv("VERIF_BIN") + ".ost"); err == nil {
-			// handled by the wrapper below
-		}
-	}
-
 	states, trans := 0, 0
 	outcomes := map[string]int{}
 	exh := true
@@ -878,6 +883,51 @@ func main() {
 		code = 2
 	}
 
+	// Windows-typed instances need the avfs_setostype build: the check script
+	// built it next to this binary; run it and fold its evidence into ours.
+	var ostRun any
+
+	if ost := os.Getenv("VERIF_BIN") + ".ost"; !ostBuild && *systems == "" && code != 2 {
+		if _, err := os.Stat(ost); err == nil {
+			cmd := exec.Command(ost, "-id", *id, "-tier", *tier, "-systems", "MemFS/Windows,OrefaFS/Windows")
+			cmd.Stdout, cmd.Stderr = os.Stdout, os.Stderr
+			err := cmd.Run()
+
+			oc := 0
+			if ee, ok := err.(*exec.ExitError); ok {
+				oc = ee.ExitCode()
+			} else if err != nil {
+				oc = 2
+			}
+
+			if oc > code {
+				code = oc
+			}
+
+			of := filepath.Join(verifDir, "evidence", *id+".ostype.json")
+			if b, err := os.ReadFile(of); err == nil {
+				var e ev.Evidence
+				if json.Unmarshal(b, &e) == nil {
+					ostRun = e.Coverage
+
+					if n, ok := e.Coverage["states"].(float64); ok {
+						states += int(n)
+					}
+
+					if n, ok := e.Coverage["transitions"].(float64); ok {
+						trans += int(n)
+					}
+
+					if x, ok := e.Coverage["exhaustive"].(bool); ok && !x {
+						exh = false
+					}
+				}
+
+				_ = os.Remove(of)
+			}
+		}
+	}
+
 	e := ev.Evidence{
 		PropertyID: *id, Tier: *tier, Seed: ev.Seed(), Level: "model_checking",
 		Coverage: map[string]any{
@@ -886,7 +936,7 @@ func main() {
 			"rule":       "every history of length <= bound over the call alphabet (valid, invalid and aliased operands) executed on fresh real instances; distinct_nontrivial = distinct (call, outcome kind) classes observed",
 			"samples":    samples,
 			"exhaustive": exh, "bound": fmt.Sprintf("histories of length <= %d (completed %d)", d, depthDone),
-			"systems": all, "known_findings_matched": rep.KnownMatched(), "ostype_build": ostBuild,
+			"systems": all, "known_findings_matched": rep.KnownMatched(), "ostype_build": ostBuild, "windows_typed_run": ostRun,
 		},
 		Assumptions: []string{
 			"state identity = injected node-graph dump (VerifDump) + cwd; mtimes and inode numbers are not part of a state",
